@@ -170,6 +170,49 @@ def check_wake(ctx, P):
         o.ok("stack-resident types: %s" % sorted(sr))
 
 
+def check_tick(ctx, P):
+    """units of the tick counter: it advances by u per timer expiration, expirations are T ms apart, sleepers add (ms + 1) and are woken by a
+    strict comparison.  A sleeper registered just before a tick is woken at the k-th tick after it, k = floor((ms+1)/u) + 1, having slept
+    at least (k-1)*T ms; this must be >= ms for every ms."""
+    ws = P.fn("fiber_event_wake_sleepers")
+    o = ctx.ob("early.tick", ws, "the tick counter advances by u per timer expiration with floor((ms+1)/u) * T >= ms for every ms (T = timer period in ms): "
+               "one expiration never counts for more sleep-time units than its period covers",
+               "advancing the counter by the period (5) per expiration while deadlines keep their 1-unit slack wakes a 4 ms sleep at the next tick, "
+               "which may be microseconds away")
+    st = [s for s in ws.stores() if ws.target_key(s.target) == ("glob", "timer_trigger_count")]
+    if len(st) != 1 or st[0].value is None:
+        raise AnalysisBroken("wake_sleepers: tick counter update not recognised")
+    isP = is_param_load(ws, ws.params[1]["name"])
+    try:
+        inc = [ev(ws, st[0].value, atom_from([(isP, k)])) for k in (0, 1, 2, 3, 1000)]
+    except Unevaluable as e:
+        raise AnalysisBroken("wake_sleepers: cannot evaluate the increment (%s)" % e)
+    init = P.fn("fiber_event_init")
+    per = {}
+    for s_ in init.stores():
+        t = s_.target.text.replace(" ", "")
+        for f in ("it_interval.tv_sec", "it_interval.tv_nsec"):
+            if t.endswith(f) and s_.value is not None:
+                try:
+                    per[f] = ev(init, s_.value, lambda n: None)
+                except Unevaluable:
+                    raise AnalysisBroken("fiber_event_init: timer period not constant")
+    if "it_interval.tv_nsec" not in per:
+        raise AnalysisBroken("fiber_event_init: timer period not found")
+    T = per.get("it_interval.tv_sec", 0) * 1000.0 + per["it_interval.tv_nsec"] / 1e6
+    u = inc[1]
+    bad = None
+    if inc[0] != 0 or any(inc[i] != k * u for i, k in ((2, 2), (3, 3), (4, 1000))) or u < 1:
+        bad = "the increment is not a positive multiple of the expiration count (0,1,2,3 -> %s)" % inc[:4]
+    else:
+        for ms in range(0, 20000):
+            if ((ms + 1) // u) * T < ms:
+                bad = "u=%d per expiration, period %.3g ms: a %d ms sleep registered just before a tick is resumed after %.3g ms" % (u, T, ms, ((ms + 1) // u) * T)
+                break
+    ctx.derived["tick"] = {"units_per_expiration": u, "period_ms": T}
+    o.check(bad is None, "u=%d, T=%.3g ms; 20000 durations" % (u, T), bad, site=st[0].node, construct="tick unit mismatch")
+
+
 def check_early(ctx, P):
     rm = P.fn("waiter_remove_less_than")
     o = ctx.ob("early.compare", rm, "a node is removed only when its wake tick is strictly below the tick count passed in (and is removed then)",
@@ -193,6 +236,7 @@ def check_early(ctx, P):
                 bad = bad or "a node with wake tick %d is not removed at tick count %d" % (N, W)
     o.check(bad is None, "16-case table", bad, site=rm.loc, construct="remove comparison")
 
+    check_tick(ctx, P)
     fs = P.fn("fiber_sleep")
     o = ctx.ob("early.width", fs, "the deadline added to the tick counter is at least seconds*1000 + useconds/1000 + 1 for every 32-bit "
                "(seconds, useconds), computed without wrap-around, and the node's wake tick is tick counter + that value",
